@@ -1,5 +1,5 @@
 (* C05 - Rejected CTAP2 requests report exactly the status code their fault calls for. *)
-From Ctap Require Import Base Schema Wire Utf8 Typed WellTyped Procs Inst Tables ProcTables Finite CborItem WireP SkipP TypedP EntriesP FramingP C11P SerP TotalP RoundTripP PrefixP ObRequestSide ObOpTables.
+From Ctap Require Import Base Schema Wire Utf8 Typed WellTyped Procs Inst Tables ProcTables Finite CborItem WireP SkipP TypedP EntriesP FramingP C11P SerP TotalP RoundTripP PrefixP ObRequestSide ObOpTables FnShapes Shapes ObShapeRequest.
 Local Open Scope string_scope.
 Local Open Scope Z_scope.
 
@@ -169,6 +169,11 @@ Theorem c05_generated_route : forall f b, In f all_feats -> 0 <= b < 256 ->
   route_of (gen_tables f) b = spec_route b.
 Proof. exact generated_route. Qed.
 
+(* tie to the source for the hand-modelled procedural code: the bodies of these functions, as regenerated from
+   /repo now, have the shape (literals, operators, calls, control flow, constants) the model was written against *)
+Theorem c05_modelled_functions_unchanged_request : shapes_hold fn_shapes shapes_request = true.
+Proof. exact generated_shapes_request. Qed.
+
 Eval vm_compute in "ASSUMPTIONS c05_mapping". Print Assumptions c05_mapping.
 Eval vm_compute in "ASSUMPTIONS c05_invalid_command_status". Print Assumptions c05_invalid_command_status.
 Eval vm_compute in "ASSUMPTIONS c05_status_range". Print Assumptions c05_status_range.
@@ -187,3 +192,4 @@ Eval vm_compute in "ASSUMPTIONS c05_verdict_prefix_stable". Print Assumptions c0
 Eval vm_compute in "ASSUMPTIONS c05_spec_declarations_wellformed". Print Assumptions c05_spec_declarations_wellformed.
 Eval vm_compute in "ASSUMPTIONS c05_spec_request_types_decodable". Print Assumptions c05_spec_request_types_decodable.
 Eval vm_compute in "ASSUMPTIONS c05_truncation_is_invalid_cbor". Print Assumptions c05_truncation_is_invalid_cbor.
+Eval vm_compute in "ASSUMPTIONS c05_modelled_functions_unchanged_request". Print Assumptions c05_modelled_functions_unchanged_request.
